@@ -6,7 +6,10 @@ SC = 'numba_scfg.core.datastructures.scfg'
 
 # ---- facts about every sub-graph `s` of the pre-state heap (G = graph_at_entry(s)) and every block stored in it
 G = 'graph_at_entry(s)'
-EACH = 'for s in all_subs() for k in %s' % G
+# ... of the tree of sub-graphs the argument's sub-graph belongs to (what happens in the sub-graphs of other top-level
+# regions is irrelevant to the call and untouched by it)
+EACH = 'for s in all_subs() if isinstance(block, RegionBlock) and chain_root(s) == chain_root(block.subregion) for k in %s' % G
+ALLSUBS = 'for s in all_subs() for k in %s' % G
 B = '%s[k]' % G                                                   # a stored block
 EX = 'graph_at_entry(%s.subregion)[%s.exiting]' % (B, B)           # its exiting block, if it is a region
 PRE = {
@@ -30,7 +33,7 @@ TOP = {
                  ' and (isinstance(%s, RegionBlock) or isinstance(%s, SyntheticBranch)),'
                  ' fwd_rank(%s._jump_targets, %s.backedges, len(%s._jump_targets)) == len(block.jump_targets))' % ((TE,) * 5),
     # no new forward target is a declared back edge of any stored block
-    'top-fwd': 'all(t not in %s.backedges for t in block.jump_targets %s)' % (B, EACH),
+    'top-fwd': 'implies(isinstance(block, RegionBlock), all(t not in %s.backedges for t in block.jump_targets %s))' % (B, EACH),
 }
 IJ, BE, F = 'inner._jump_targets', 'inner.backedges', 'entry.fresh'
 E0X = 'graph_at_entry(it0.block.subregion)[it0.block.exiting]'
@@ -53,6 +56,8 @@ LEVEL1 = {
               % (COND1, NE, OE, OE, OE, OB, OE, OE, OE),
 }
 
+_NOREQ = ['-requires:branch', '-requires:arity', '-requires:exiting', '-requires:top-fwd', '-requires:top-arity', '-requires:top-exiting',
+          '-requires:wf', '-requires:keys', '-fact:rank', '-fact:rank-prefix']
 register(Contract(
     qual=SC + ':SCFG._sync_exiting', params={'block': 'block'}, heap=True, modifies=['$heap'],
     locals={'jt': 'list[name]', 'fresh': 'list[name]'},
@@ -61,16 +66,25 @@ register(Contract(
         # nothing but jump targets (and the value tables that follow them) changes in any stored block, no block is
         # added to or removed from any sub-graph (C05)
         'same-keys': 'all(set(s.graph) == set(%s) for s in all_subs())' % G,
-        'same-fields': 'all(ib_plain(%s, s.graph[k]) and ib_branch(%s, s.graph[k]) %s)' % (B, B, EACH),
+        'same-fields': 'all(ib_plain(%s, s.graph[k]) and ib_branch(%s, s.graph[k]) %s)' % (B, B, ALLSUBS),
+        # sub-graphs of other trees are not written; the nesting stays well founded
+        'other-trees-same': 'all(same_graph(s) for s in all_subs() if chain_root(s) != chain_root(old.block.subregion))',
+        'wf-kept': 'nesting_wf()',
+        'noop': 'implies(not isinstance(old.block, RegionBlock), heap_unchanged())',
         **LEVEL1,
     },
     loops={
         'while isinstance(block, RegionBlock)': LoopSpec(inv=dict(TOP, **{
-            'deeper-same': 'implies(isinstance(block, RegionBlock), all(s.graph == %s for s in all_subs()'
-                           ' if sub_depth(s) >= sub_depth(block.subregion)))' % G,
+            'deeper-same': 'implies(isinstance(block, RegionBlock), all(same_graph(s) for s in all_subs()'
+                           ' if sub_depth(s) >= sub_depth(block.subregion)))',
             'same-keys': 'all(set(s.graph) == set(%s) for s in all_subs())' % G,
-            'same-fields': 'all(ib_plain(%s, s.graph[k]) and ib_branch(%s, s.graph[k]) %s)' % (B, B, EACH),
+            'same-fields': 'all(ib_plain(%s, s.graph[k]) and ib_branch(%s, s.graph[k]) %s)' % (B, B, ALLSUBS),
+            'other-trees-same': 'all(same_graph(s) for s in all_subs() if chain_root(s) != chain_root(old.block.subregion))',
+            'same-tree': 'implies(isinstance(block, RegionBlock), chain_root(block.subregion) == chain_root(old.block.subregion)'
+                         ' and isinstance(old.block, RegionBlock))',
+            'wf-kept': 'nesting_wf()',
             'first': 'implies(_iter == 0, same_value(block, old.block) and heap_unchanged())',
+            'arg-region': 'implies(_iter >= 1, isinstance(old.block, RegionBlock))',
             **{k_: 'implies(_iter >= 1, %s)' % v_ for k_, v_ in LEVEL1.items()},
             'below': 'implies(_iter >= 1 and isinstance(block, RegionBlock), sub_depth(block.subregion) > sub_depth(old.block.subregion))',
         })),
@@ -90,6 +104,13 @@ register(Contract(
         'jt-len-new': "fact('BasicBlock.jump_targets', 'len-rank', block)",
         'jt-len-old': "fact('BasicBlock.jump_targets', 'len-rank', graph_at_entry(it0.block.subregion)[it0.block.exiting])",
         # a region or branching exiting block keeps its number of forward targets
+        # what one iteration writes: the exiting block of the current region, nothing else
+        'w-others': 'all(s.graph[k] == graph_before(s)[k] for s in all_subs() for k in graph_before(s)'
+                    ' if s != it0.block.subregion or k != it0.block.exiting)',
+        'w-keys': 'all(set(s.graph) == set(graph_before(s)) for s in all_subs())',
+        'w-cur': 'ib_plain(graph_before(it0.block.subregion)[it0.block.exiting], block)'
+                 ' and ib_branch(graph_before(it0.block.subregion)[it0.block.exiting], block)'
+                 ' and graph_now(it0.block.subregion)[it0.block.exiting] == block',
         'old-has': 'it0.block.exiting in graph_at_entry(it0.block.subregion)',
         'old-is': 'it0.block.subregion.graph[it0.block.exiting] == %s' % E0X,
         'be-same': 'identical(set(block.backedges), set(%s.backedges))' % E0X,
@@ -114,9 +135,13 @@ register(Contract(
                       ' len(block.jump_targets) == len(%s.jump_targets))' % (E0X, E0X, E0X),
     }},
     hints={
-        'inv-step:top-fwd': ['top-fwd', 'jt-sub', 'jt-elems', 'fresh-suffix', 'block', 'def', 'be-same', 'be-same-cur', 'old-is',
+        'inv-step:top-fwd': ['top-fwd', 'jt-sub', 'jt-elems', 'fresh-suffix', 'block', 'def', 'be-same', 'be-same-cur', 'old-is', 'old-has',
+                             'same-tree', 'next-sub', 'deeper-same', 'top-exiting',
                              '-requires:branch', '-requires:arity', '-requires:exiting', '-requires:keys', '-requires:top-arity',
-                             '-requires:top-exiting', '-requires:wf', '-fact:rank', '-fact:rank-prefix'],
+                             '-requires:top-exiting', '-fact:rank', '-fact:rank-prefix'],
+        'inv-step:same-fields': ['same-fields', 'w-others', 'w-keys', 'w-cur'] + _NOREQ,
+        'inv-step:same-keys': ['same-keys', 'w-keys'] + _NOREQ,
+        'inv-step:wf-kept': ['wf-kept', 'w-others', 'w-keys', 'w-cur'] + _NOREQ,
         'inv-step:top-arity': ['arity-old', 'old-has', 'next-sub', 'next-same', 'next-be', 'same-arity', 'old-is', 'top-exiting',
                                'fact:rank', 'fact:rank-prefix', '-requires:branch', '-requires:keys', '-requires:top-fwd',
                                '-requires:top-arity', '-requires:top-exiting', '-requires:exiting'],
@@ -137,7 +162,7 @@ RENAMED_OR_SAME = ('all(len(s.graph[k]._jump_targets) == len(%s._jump_targets) a
                    ' and all(s.graph[k]._jump_targets[i] == %s._jump_targets[i] or (%s._jump_targets[i] == new_region_header'
                    ' and s.graph[k]._jump_targets[i] == new_region_name) for i in range(len(%s._jump_targets)))'
                    ' and all(s.graph[k].backedges[i] == %s.backedges[i] or (%s.backedges[i] == new_region_header'
-                   ' and s.graph[k].backedges[i] == new_region_name) for i in range(len(%s.backedges))) %s)' % ((B,) * 8 + (EACH,)))
+                   ' and s.graph[k].backedges[i] == new_region_name) for i in range(len(%s.backedges))) %s)' % ((B,) * 8 + (ALLSUBS,)))
 # the facts are needed at and below the argument's sub-graph only (during the recursion the sub-graph above is incomplete:
 # its exiting block has been popped and is added back after the recursive call)
 DEEP = 'for s in all_subs() if sub_depth(s) >= sub_depth(%s.subregion) for k in %s' % (RB, G)
@@ -173,7 +198,7 @@ register(Contract(
         'result': 'same_value(result, %s)' % RB,
         'no-stale': NO_STALE_POST,
         # nothing above the argument's sub-graph is written
-        'shallower-same': 'all(s.graph == %s for s in all_subs() if sub_depth(s) < sub_depth(%s.subregion))' % (G, RB),
+        'shallower-same': 'all(same_graph(s) for s in all_subs() if sub_depth(s) < sub_depth(%s.subregion))' % RB,
         'level-1-clean': 'not %s' % (HAS_H % (UNE, UNE)),
         'same-keys': 'all(set(s.graph) == set(%s) for s in all_subs())' % G,
         'renamed-or-same': RENAMED_OR_SAME,
@@ -194,4 +219,81 @@ register(Contract(
             'rest': 'all(be[i] == entry.be[i] for i in range(_i, len(be)))'}),
     },
     properties=['C04', 'C14', 'C02'], gen='update_exiting',
+))
+
+# ---- insert_block, hierarchy view (C14 / C04): a second contract of the same function, in heap mode.  The main view
+# (contracts/scfg_edit.py, value mode) is what proves the re-routing at the level of the graph; this view proves that the
+# exiting chain of every region predecessor is re-targeted with it (by the contract of _sync_exiting, called on the
+# re-targeted block of every predecessor).  Its preconditions repeat the main view's; the main view's loop invariants and
+# cut facts are inherited as assumptions.
+from pyvc.contract import REGISTRY as _REG
+_MAIN = _REG[SC + ':SCFG.insert_block']
+PO = 'old.self.graph[p]'          # the predecessor before the call
+PN = 'self.graph[p]'              # ... and after
+IS_REG = 'isinstance(self.graph[p], RegionBlock)'
+TREE = 'for s in all_subs() if chain_root(s) == chain_root(self.graph[p].subregion) for k in %s' % G
+PEX = 'graph_at_entry(self.graph[p].subregion)[self.graph[p].exiting]'
+RANK_PEX = 'fwd_rank(%s._jump_targets, %s.backedges, len(%s._jump_targets))' % (PEX, PEX, PEX)
+HIER_REQ = {
+    'h-wf': 'nesting_wf()',
+    # distinct region predecessors own distinct trees of sub-graphs
+    'h-roots': 'all(implies(p != q, chain_root(self.graph[p].subregion) != chain_root(self.graph[q].subregion))'
+               ' for p in predecessors if %s for q in predecessors if isinstance(self.graph[q], RegionBlock))' % IS_REG,
+    'h-keys': 'all(%s.name == k for p in predecessors if %s %s)' % (B, IS_REG, TREE),
+    'h-exiting': 'all(%s.exiting in graph_at_entry(%s.subregion) for p in predecessors if %s %s if isinstance(%s, RegionBlock))' % (B, B, IS_REG, TREE, B),
+    'h-branch': 'all(table_ok(%s) and distinct(%s._jump_targets) for p in predecessors if %s %s if isinstance(%s, SyntheticBranch))' % (B, B, IS_REG, TREE, B),
+    'h-arity': 'all(fwd_rank(%s._jump_targets, %s.backedges, len(%s._jump_targets)) == len(%s.jump_targets) for p in predecessors if %s %s'
+               ' if isinstance(%s, RegionBlock) and (isinstance(%s, RegionBlock) or isinstance(%s, SyntheticBranch)))'
+               % (EX, EX, EX, B, IS_REG, TREE, B, EX, EX),
+    'h-top-exiting': 'all(self.graph[p].exiting in graph_at_entry(self.graph[p].subregion) for p in predecessors if %s)' % IS_REG,
+    # a region predecessor whose exiting block is a region or branches is re-targeted by renaming (one target in S): the
+    # value table of a branching block cannot follow an appended or a merged target
+    'h-top-arity': 'all(%s == len(self.graph[p].jump_targets) and len(successors) > 0 and at_most_one_in(self.graph[p]._jump_targets, set(successors))'
+                   ' for p in predecessors if %s and (isinstance(%s, RegionBlock) or isinstance(%s, SyntheticBranch)))'
+                   % (RANK_PEX, IS_REG, PEX, PEX),
+    # neither an old target nor the new block is a declared back edge of a block stored below the predecessor
+    'h-fwd': 'all(new_name not in %s.backedges and all(t not in %s.backedges for t in self.graph[p]._jump_targets)'
+             ' for p in predecessors if %s %s)' % (B, B, IS_REG, TREE),
+}
+H_OE = 'graph_at_entry(%s.subregion)[%s.exiting]' % (PO, PO)
+H_NE = 'graph_now(%s.subregion)[%s.exiting]' % (PO, PO)
+H_M0 = 'fwd_rank(%s._jump_targets, %s.backedges, len(%s._jump_targets))' % (H_OE, H_OE, H_OE)
+H_COND = 'isinstance(%s, RegionBlock) and %s <= len(%s.jump_targets)' % (PO, H_M0, PN)
+H_L1 = ('implies(%s, len(%s._jump_targets) == len(%s._jump_targets) + len(%s.jump_targets) - %s'
+        ' and all(%s._jump_targets[i] == (%s._jump_targets[i] if %s._jump_targets[i] in %s.backedges'
+        ' else %s.jump_targets[fwd_rank(%s._jump_targets, %s.backedges, i)]) for i in range(len(%s._jump_targets))))'
+        % (H_COND, H_NE, H_OE, PN, H_M0, H_NE, H_OE, H_OE, H_OE, PN, H_OE, H_OE, H_OE))
+_hreq = dict(_MAIN.requires)
+_hreq.update(HIER_REQ)
+register(Contract(
+    qual=SC + ':SCFG.insert_block#hier', view_of=SC + ':SCFG.insert_block', params=dict(_MAIN.params), heap=True,
+    modifies=['self.graph', '$heap'], locals=dict(_MAIN.locals), known=dict(_MAIN.known),
+    requires=_hreq,
+    ensures={
+        # the exiting block of every region predecessor is re-targeted with the predecessor, position by position
+        'h-level-1': 'all(%s for p in predecessors)' % H_L1,
+        'h-same-keys': 'all(set(s.graph) == set(%s) for s in all_subs())' % G,
+        'h-same-fields': 'all(ib_plain(%s, s.graph[k]) and ib_branch(%s, s.graph[k]) %s)' % (B, B, ALLSUBS),
+    },
+    loops={
+        'for name in predecessors': LoopSpec(inv={
+            'h-done': 'all(%s for p in _i_seen)' % H_L1,
+            'h-untouched': 'all(same_graph(s) for s in all_subs() if not any(isinstance(old.self.graph[q], RegionBlock)'
+                           ' and chain_root(s) == chain_root(old.self.graph[q].subregion) for q in _i_seen))',
+            'h-wf': 'nesting_wf()',
+            'h-same-keys': 'all(set(s.graph) == set(%s) for s in all_subs())' % G,
+            'h-same-fields': 'all(ib_plain(%s, s.graph[k]) and ib_branch(%s, s.graph[k]) %s)' % (B, B, ALLSUBS),
+        }),
+    },
+    cuts={'self._sync_exiting(new_block)': {
+        # the predecessor being processed has not been processed before; its tree of sub-graphs is as on entry
+        'cur-new': 'name not in _i_seen and name in predecessors and block == old.self.graph[name]',
+        'nb-same-sub': 'new_block.subregion == block.subregion and new_block.exiting == block.exiting'
+                       ' and isinstance(new_block, RegionBlock) == isinstance(block, RegionBlock) and len(new_block.backedges) == 0',
+        'tree-same': 'implies(isinstance(block, RegionBlock), all(same_graph(s) for s in all_subs()'
+                     ' if chain_root(s) == chain_root(block.subregion)))',
+        'nb-len': 'implies(isinstance(block, RegionBlock) and at_most_one_in(block._jump_targets, set(successors)) and len(successors) > 0,'
+                  ' len(new_block.jump_targets) == len(block.jump_targets))',
+    }},
+    properties=['C14', 'C04'], gen='insert', slices=4,
 ))
